@@ -23,6 +23,8 @@ import (
 	"github.com/containerd/nri/pkg/stub"
 	"github.com/containerd/ttrpc"
 	"github.com/sirupsen/logrus"
+	"google.golang.org/grpc/codes"
+	"google.golang.org/grpc/status"
 )
 
 // ---------------------------------------------------------------- logging
@@ -81,15 +83,45 @@ type env struct {
 
 // callErr is what the adaptation's relay code was handed by ttrpc for one call.
 type callErr struct {
-	Method string
-	Err    string
+	Method string `json:"method"`
+	Class  string `json:"class"`
+	Err    string `json:"err"`
 }
 
+// errClass names an error the way isFatalError's table and Dispatch.v do.
+func errClass(err error) string {
+	switch {
+	case errors.Is(err, ttrpc.ErrClosed):
+		return "ttrpc.ErrClosed"
+	case errors.Is(err, ttrpc.ErrServerClosed):
+		return "ttrpc.ErrServerClosed"
+	case errors.Is(err, ttrpc.ErrProtocol):
+		return "ttrpc.ErrProtocol"
+	case errors.Is(err, context.DeadlineExceeded):
+		return "context.DeadlineExceeded"
+	case errors.Is(err, io.ErrUnexpectedEOF):
+		return "io.ErrUnexpectedEOF"
+	}
+	if st, ok := status.FromError(err); ok {
+		return "codes." + st.Code().String()
+	}
+	return "other"
+}
+
+// intercept is a ttrpc client interceptor installed through the public
+// WithTTRPCOptions option: it sees every call the adaptation makes to a plugin
+// and records the ones that fail, either with an error of the transport or
+// with a status the plugin's ttrpc server sent instead of a response.
 func (e *env) intercept(ctx context.Context, req *ttrpc.Request, rpl *ttrpc.Response, info *ttrpc.UnaryClientInfo, inv ttrpc.Invoker) error {
 	err := inv(ctx, req, rpl)
-	if err != nil {
+	switch {
+	case err != nil:
 		e.cmu.Lock()
-		e.calls = append(e.calls, callErr{Method: req.Method, Err: err.Error()})
+		e.calls = append(e.calls, callErr{Method: req.Method, Class: errClass(err), Err: err.Error()})
+		e.cmu.Unlock()
+	case rpl.Status != nil && rpl.Status.Code != 0:
+		e.cmu.Lock()
+		e.calls = append(e.calls, callErr{Method: req.Method, Class: "codes." + codes.Code(rpl.Status.Code).String(), Err: rpl.Status.Message})
 		e.cmu.Unlock()
 	}
 	return err
